@@ -6,20 +6,23 @@ import math
 
 
 class Entry:
-    def __init__(self, name, kind, build, x, ctx=None, flags=(), y=None):
+    def __init__(self, name, kind, build, x, ctx=None, flags=(), y=None, build_alt=None):
         self.name = name
         self._y = y
+        # same configuration, but other values for constructor arguments that live in buffers
+        # (and therefore travel in the state dict): used for the fresh model of a reload
+        self._build_alt = build_alt
         self.kind = kind  # transform | dist | flow
         self._build = build
         self._x = x
         self._ctx = ctx
         self.flags = set(flags)
 
-    def build(self, seed=0, perturb=True):
+    def build(self, seed=0, perturb=True, alt=False):
         import torch
 
         torch.manual_seed(seed)
-        m = self._build()
+        m = (self._build_alt or self._build)() if alt else self._build()
         if perturb and "noperturb" not in self.flags:
             g = torch.Generator().manual_seed(seed + 7)
             with torch.no_grad():
@@ -95,8 +98,8 @@ def entries():
 
     E = []
 
-    def add(name, kind, build, x, ctx=None, flags=(), y=None):
-        E.append(Entry(name, kind, build, x, ctx, flags, y))
+    def add(name, kind, build, x, ctx=None, flags=(), y=None, build_alt=None):
+        E.append(Entry(name, kind, build, x, ctx, flags, y, build_alt))
 
     mask4 = [1, -1, 0, 2]
     # ---- coupling
@@ -119,6 +122,8 @@ def entries():
     # ---- autoregressive
     add("MaskedAffineAR", "transform", lambda: TR.MaskedAffineAutoregressiveTransform(3, 8, num_blocks=1), _rn(3), flags={"inv"})
     add("MaskedAffineAR/ctx+random", "transform", lambda: TR.MaskedAffineAutoregressiveTransform(3, 8, context_features=2, num_blocks=2, use_residual_blocks=False, random_mask=True), _rn(3), _rn(2), flags={"inv", "ctor_random"})
+    add("MaskedAffineAR/dropout", "transform", lambda: TR.MaskedAffineAutoregressiveTransform(3, 8, num_blocks=1, dropout_probability=0.3), _rn(3), flags={"inv", "dropout"})
+    add("AffineCoupling/dropout", "transform", lambda: TR.AffineCouplingTransform(mask4, resnet(dropout=0.3)), _rn(4), flags={"inv", "dropout"})
     add("MaskedAffineAR/batchnorm", "transform", lambda: TR.MaskedAffineAutoregressiveTransform(3, 8, num_blocks=1, use_batch_norm=True), _rn(3), flags={"inv", "inner_bn"})
     add("MaskedPiecewiseLinearAR", "transform", lambda: TR.MaskedPiecewiseLinearAutoregressiveTransform(4, 3, 8, num_blocks=1), _ru(3), flags={"inv", "bounded01", "spline"})
     add("MaskedPiecewiseQuadraticAR", "transform", lambda: TR.MaskedPiecewiseQuadraticAutoregressiveTransform(3, 8, num_bins=4, num_blocks=1), _ru(3), flags={"inv", "bounded01", "spline"})
@@ -133,6 +138,8 @@ def entries():
     add("QRLinear", "transform", lambda: TR.QRLinear(3, num_householder=3), _rn(3), flags={"inv", "linear"})
     add("SVDLinear", "transform", lambda: TR.SVDLinear(3, num_householder=2, identity_init=False), _rn(3), flags={"inv", "linear"})
     add("NaiveLinear", "transform", lambda: TR.NaiveLinear(3), _rn(3), flags={"inv", "linear", "ctor_random"})
+    add("NaiveLinear/cached", "transform", lambda: TR.NaiveLinear(3, orthogonal_initialization=False, using_cache=True), _rn(3), flags={"inv", "linear", "ctor_random", "bigperturb"})
+    add("NaiveLinear/64", "transform", lambda: TR.NaiveLinear(64, orthogonal_initialization=False), _rn(64), flags={"inv", "linear", "ctor_random", "noperturb", "large"})
     add("OneByOneConvolution", "transform", lambda: TR.OneByOneConvolution(3, identity_init=False), _rn(3, 2, 3), flags={"inv", "image", "linear", "ctor_random"})
     add("HouseholderSequence", "transform", lambda: TR.HouseholderSequence(3, 3), _rn(3), flags={"inv", "linear"})
     # ---- structure
@@ -143,6 +150,7 @@ def entries():
     add("HouseholderSequence/5", "transform", lambda: TR.HouseholderSequence(3, 5), _rn(3), flags={"inv", "linear"})
     add("QRLinear/many-householder", "transform", lambda: TR.QRLinear(2, num_householder=7), _rn(2), flags={"inv", "linear"})
     add("Composite", "transform", lambda: TR.CompositeTransform([TR.LULinear(3, identity_init=False), TR.ReversePermutation(3), TR.MaskedAffineAutoregressiveTransform(3, 8, num_blocks=1), TR.RandomPermutation(3)]), _rn(3), flags={"inv", "ctor_random"})
+    add("Inverse(MaskedAffineAR ctx)", "transform", lambda: TR.InverseTransform(TR.MaskedAffineAutoregressiveTransform(3, 8, context_features=2, num_blocks=1)), _rn(3), _rn(2), flags={"inv", "bigperturb"})
     add("Inverse(LU)", "transform", lambda: TR.InverseTransform(TR.LULinear(3, identity_init=False)), _rn(3), flags={"inv"})
 
     def multiscale():
@@ -158,17 +166,25 @@ def entries():
     add("ActNorm", "transform", lambda: TR.ActNorm(3), _rn(3), flags={"inv", "needs_init"})
     add("ActNorm/image", "transform", lambda: TR.ActNorm(3), _rn(3, 2, 3), flags={"inv", "needs_init", "image"})
     add("BatchNorm", "transform", lambda: TR.BatchNorm(3), _rn(3), flags={"inv", "needs_init", "batch_coupled_train"})
+    add("BatchNorm/affine-false+eps", "transform", lambda: TR.BatchNorm(3, eps=1e-3, momentum=0.3, affine=False), _rn(3), flags={"inv", "needs_init", "batch_coupled_train", "bigperturb"})
     # ---- elementwise
     add("Exp", "transform", lambda: NL.Exp(), _rn(3), flags={"inv", "noparams"}, y=_ru(3, lo=0.1, hi=3.0))
     add("Tanh", "transform", lambda: NL.Tanh(), _rn(3), flags={"inv", "noparams"}, y=_ru(3, lo=-0.9, hi=0.9))
     add("LogTanh", "transform", lambda: NL.LogTanh(cut_point=1), (lambda n, g: 2.0 * torch.randn(n, 3, generator=g)), flags={"inv", "noparams"})
     add("LeakyReLU", "transform", lambda: NL.LeakyReLU(0.1), _rn(3), flags={"inv", "noparams"})
-    add("Sigmoid", "transform", lambda: NL.Sigmoid(temperature=0.7), _rn(3), flags={"inv", "noparams"}, y=_ru(3))
+    add("Sigmoid", "transform", lambda: NL.Sigmoid(temperature=0.7), _rn(3), flags={"inv", "noparams"}, y=_ru(3), build_alt=lambda: NL.Sigmoid(temperature=1.0))
     add("Sigmoid/learned", "transform", lambda: NL.Sigmoid(temperature=1.3, learn_temperature=True), _rn(3), flags={"inv"}, y=_ru(3))
     add("Logit", "transform", lambda: NL.Logit(temperature=0.7), _ru(3), flags={"inv", "bounded01", "noparams"}, y=_rn(3))
+    def unit_with_ends(n, g):
+        v = 0.02 + 0.96 * torch.rand(n, 3, generator=g)
+        v[0, 0] = 0.0   # exact end points in one row only
+        v[0, 2] = 1.0
+        return v
+
+    add("Logit/eps", "transform", lambda: NL.Logit(temperature=1.0, eps=0.05), unit_with_ends, flags={"inv", "bounded01", "noparams"}, y=_rn(3))
     add("CauchyCDF", "transform", lambda: NL.CauchyCDF(), _rn(3), flags={"inv", "noparams"}, y=_ru(3))
     add("CauchyCDFInverse", "transform", lambda: NL.CauchyCDFInverse(), _ru(3), flags={"inv", "bounded01", "noparams"}, y=_rn(3))
-    add("PointwiseAffine/tensor", "transform", lambda: TR.PointwiseAffineTransform(shift=torch.tensor([0.5, -1.0, 2.0]), scale=torch.tensor([2.0, -0.5, 3.0])), _rn(3), flags={"inv", "noparams"})
+    add("PointwiseAffine/tensor", "transform", lambda: TR.PointwiseAffineTransform(shift=torch.tensor([0.5, -1.0, 2.0]), scale=torch.tensor([2.0, -0.5, 3.0])), _rn(3), flags={"inv", "noparams"}, build_alt=lambda: TR.PointwiseAffineTransform(shift=torch.tensor([0.0, 0.0, 0.0]), scale=torch.tensor([1.0, 1.0, 1.0])))
     add("PointwiseAffine/scalar-image", "transform", lambda: TR.PointwiseAffineTransform(shift=0.5, scale=-2.0), _rn(2, 3, 2), flags={"inv", "noparams", "image"})
     add("GatedLinearUnit", "transform", lambda: NL.GatedLinearUnit(), _rn(3), _rn(3), flags={"inv", "noparams"})
     add("GatedLinearUnit/row-gate", "transform", lambda: NL.GatedLinearUnit(), _rn(3), _rn(1), flags={"inv", "noparams"})
